@@ -1,19 +1,27 @@
-import os, random, json
-from concurrent.futures import ThreadPoolExecutor
-import vf, pipeline
+"""qvector description for pipeline.run_container (specs Vector.tla / VectorTrace.tla)."""
+import vf
 
-FIELDS = ("i", "v")
-
-
-def fmt(op):
-    return "%s %d %d" % (op["op"], op["i"], op["v"])
+NAME, MODULE, TRACE_MODULE, HARNESS, FIELDS = "vector", "Vector", "VectorTrace", "replay_vector", ("i", "v")
 
 
-def configs(tier):
-    pol = ["exact", "linear", "double"]
-    caps = [0, 1, 2, 3]
-    maxlen = 4 if tier == "quick" else 5
-    return [(p, c, maxlen) for p in pol for c in caps]
+def _replays(pol, cap, combos):
+    return [dict(tag="o%d-p%d" % (o, p), args=(lambda s, t, fl, o=o, p=p, pol=pol, cap=cap: [s, t, o, cap, pol, p, fl])) for (o, p) in combos]
+
+
+def models(tier):
+    objs = [1, 3, 8, 64] if tier == "thorough" else [1, 8, 64]
+    if tier == "cross":
+        cfgs = [("exact", 0, 3), ("linear", 2, 3), ("double", 1, 3)]
+    else:
+        ml = 4 if tier == "quick" else 5
+        cfgs = [(p, c, ml) for p in ("exact", "linear", "double") for c in (0, 1, 2, 3)]
+    ms = []
+    for n, (pol, cap, ml) in enumerate(cfgs):
+        consts = dict(MaxLen=ml, Vals={1, 2}, Policy=pol, InitCap=cap)
+        combos = [(objs[n % len(objs)], n % 4)] + ([(objs[(n + 1) % len(objs)], (n + 1) % 4)] if tier == "thorough" else [])
+        ms.append(dict(tag="%s-%d" % (pol, cap), consts=consts, invariants=["TypeOK", "CapOK"],
+                       properties=["RefusalsHarmless", "GrowthPreserves"], workers=2, replays=_replays(pol, cap, combos)))
+    return ms
 
 
 def rand_script(rng, nseg, steps, maxn):
@@ -57,67 +65,12 @@ def rand_script(rng, nseg, steps, maxn):
     return segs
 
 
-def vector_pipeline(chk, tier, seed, owned, flagsets, modes, objsizes=None, do_random=True):
-    """Model runs (all policies x initial capacities), tours replayed in the given flag sets / build modes."""
-    rng = random.Random(seed)
-    pipeline.SCRIPT_FIELDS["replay_vector"] = FIELDS
-    wd = pipeline.workdir("vector")
-    objsizes = objsizes or ([1, 3, 8, 64] if tier == "thorough" else [1, 8, 64])
-    cfgs = configs(tier)
-    for mode in modes:
-        vf.build("replay_vector", mode=mode, wraps=pipeline.default_wraps(mode))
-    ownedc = vf.Raw(vf.tla_val(set(owned)))
-
-    def one(arg):
-        n, (pol, cap, maxlen) = arg
-        consts = dict(MaxLen=maxlen, Vals={1, 2}, Policy=pol, InitCap=cap)
-        tag = "Vector-%s-%d" % (pol, cap)
-        r, edges = pipeline.model_run(chk, tag, "Vector", consts, workers=2,
-                                      invariants=["TypeOK", "CapOK"], properties=["RefusalsHarmless", "GrowthPreserves"])
-        if not r.ok or not edges:
-            return
-        segs, st = vf.tour(edges, maxseg=400)
-        chk.add_cases(0, distinct_n=st["edges"])
-        chk.parts.setdefault("tours", {})[tag] = st
-        if st["uncovered"]:
-            chk.infra.append("tour left %d edges uncovered" % st["uncovered"])
-        script = os.path.join(wd, "tour-%s-%d-%s.script" % (pol, cap, chk.pid))
-        pipeline.write_script(script, segs, fmt)
-        if n == 0:
-            chk.sample(dict(model="Vector %s cap=%d" % (pol, cap), tour_segment=[fmt(o) for o in segs[-1][:25]]))
-        tconst = dict(consts); tconst["Owned"] = ownedc
-        for fi, flags in enumerate(flagsets):
-            for mode in modes:
-                # rotate element size / value profile over the configurations so each run stays short
-                obj = objsizes[(n + fi) % len(objsizes)]
-                prof = (n + fi) % 4
-                def args(script_, trace_, obj=obj, pol=pol, cap=cap, prof=prof, flags=flags):
-                    return [script_, trace_, obj, cap, pol, prof, flags or "-"]
-                v = pipeline.Variant("%s-o%d-p%d-%s" % (mode, obj, prof, flags or "n"), "replay_vector", args, "VectorTrace",
-                                     tconst, mode=mode, owned=owned)
-                pipeline.replay_and_validate(chk, v, script, "%s-tour-%s-%d" % (chk.pid, pol, cap))
-
-    with ThreadPoolExecutor(6) as ex:
-        list(ex.map(one, enumerate(cfgs)))
-    if do_random:
-        nseg, steps, maxn = (6, 1500, 300) if tier == "quick" else (24, 4000, 300)
-        jobs = []
-        for pol in ["exact", "linear", "double"]:
-            cap = rng.choice([0, 1, 5, 16])
-            segs = rand_script(rng, nseg, steps, maxn)
-            script = os.path.join(wd, "rand-%s-%s.script" % (pol, chk.pid))
-            pipeline.write_script(script, segs, fmt)
-            consts = dict(MaxLen=100000, Vals={1, 2, 3, 4}, Policy=pol, InitCap=cap, Owned=ownedc)
-            for fi, flags in enumerate(flagsets):
-                for mode in modes:
-                    obj = rng.choice(objsizes); prof = rng.randint(0, 3)
-                    def args(script_, trace_, obj=obj, pol=pol, cap=cap, prof=prof, flags=flags):
-                        return [script_, trace_, obj, cap, pol, prof, flags or "-"]
-                    v = pipeline.Variant("%s-o%d-p%d-%s" % (mode, obj, prof, flags or "n"), "replay_vector", args,
-                                         "VectorTrace", consts, mode=mode, owned=owned)
-                    jobs.append((v, script, "%s-rand-%s" % (chk.pid, pol)))
-        def rj(j):
-            res = pipeline.replay_and_validate(chk, j[0], j[1], j[2])
-            chk.add_cases(0, distinct_n=res["events"] // 2)
-        with ThreadPoolExecutor(6) as ex:
-            list(ex.map(rj, jobs))
+def randoms(tier, rng):
+    nseg, steps, maxn = (6, 1500, 300) if tier == "quick" else (3, 600, 60) if tier == "cross" else (24, 4000, 300)
+    out = []
+    for pol in ["exact", "linear", "double"]:
+        cap = rng.choice([0, 1, 5, 16])
+        out.append(dict(tag=pol, segs=rand_script(rng, nseg, steps, maxn),
+                        trace_consts=dict(MaxLen=100000, Vals={1, 2, 3, 4}, Policy=pol, InitCap=cap),
+                        replays=_replays(pol, cap, [(rng.choice([1, 3, 8, 64]), rng.randint(0, 3))])))
+    return out
